@@ -13,8 +13,13 @@
       the value last written by the owner; shared ones lie below brk of a mapped page;
     * private mappings and shared pages never share an id; Allocs = number of live allocations;
     * no page is marked evacuating between operations.
+  Not part of `Inv` (compared with the real allocator on every run, not proved):
+-- OPEN: freeSlots[class] = Σ free over the class's pages; Bytes / SharedMmaps / PrivateMmaps = the mapped
+-- pages and private mappings.  They steer only when defragmentation starts / what GetInfo prints.
+  Abstraction to keep in mind: the doubly linked free lists are lists here; that the pointer chains of the
+  real allocator stay consistent and equal to these lists is checked by the correspondence run only.
 -/
-import GocoinV.Proofs.C20Inv
+import GocoinV.Proofs.C20Once
 namespace GocoinV.Props.C20
 open GocoinV.Alloc GocoinV.Gen.MemClasses
 
@@ -186,36 +191,50 @@ theorem others_untouched {V : Type} (s s' : State V) (op : Op V) (inv : Inv s)
     · exact hl
   | defrag ch => exact absurd rfl (hop ch)
 
--- OPEN: contents_preserved — the statement below with "`a' = a`, or `(a, a')` is one entry of the relocate
--- log and no other entry has `a` as old or `a'` as new" in place of `Chain s'.relog a a'`, i.e. relocate
--- is called exactly once per moved allocation over the whole pass.  Proved: per iteration of the slot
--- loop (`relocate_step_partial`: exactly one relocate(old,new), old live before and not after, new not
--- live before).  Missing: the composition showing that a `new` slot (it lies on a non-evacuating page) is
--- never the `old` of a later iteration of the same pass, which makes every chain at most one link long.
-/-- Contents preserved by every operation, defragmentation passes included: an allocation that is live
-before the step and is not the one being freed / rewritten by its owner is live after the step with the
-same size and the same last-written value, at the same address for Malloc/Free/write, and for a defrag
-pass at an address reached from the old one through logged relocate(old,new) calls; the memory at that
-address holds exactly that value, with Len = size, Cap ≥ size and Data = that slot's payload. -/
-theorem contents_preserved_partial {V : Type} (s s' : State V) (op : Op V) (inv : Inv s)
+/-- Contents preserved by every operation, defragmentation passes included, and relocate is invoked
+exactly once per moved allocation: an allocation that is live before the step and is not the one being
+freed / rewritten by its owner is live after the step with the same size and the same last-written
+value — at the same address (and, for a defrag pass, no relocate call names it as old), or, for a defrag
+pass only, at `a'` where relocate(a, a') was logged, no other logged call of the pass has `a` as old
+(`a` occurs exactly once among the olds of the log) and `a` itself is no longer live.  The memory at
+that address holds exactly that value, with Len = size, Cap ≥ size and Data = that slot's payload. -/
+theorem contents_preserved {V : Type} (s s' : State V) (op : Op V) (inv : Inv s)
     (hr : step s op = .ok s') (a : Addr) (l : LiveRec V) (hl : s.live.get? a = some l)
     (hf : op ≠ .free a) (hw : ∀ v, op ≠ .write a v) :
-    ∃ a' m, s'.live.get? a' = some l ∧ Chain s'.relog a a' ∧ ((∀ ch, op ≠ .defrag ch) → a' = a) ∧
+    ∃ a' m, s'.live.get? a' = some l ∧
+      ((a' = a ∧ ∀ ch, op = .defrag ch → ∀ n, (a, n) ∉ s'.relog) ∨
+       ((∃ ch, op = .defrag ch) ∧ (a, a') ∈ s'.relog ∧ s'.live.get? a = none ∧
+         (∀ n', (a, n') ∈ s'.relog → n' = a') ∧ (s'.relog.map Prod.fst).count a = 1)) ∧
       s'.mem.get? a' = some m ∧ m.val = l.val ∧ m.len = l.size ∧ l.size ≤ m.cap ∧ m.data = some a' := by
   have inv' := step_inv s s' op inv hr
-  have fin : ∀ a', s'.live.get? a' = some l → Chain s'.relog a a' → ((∀ ch, op ≠ .defrag ch) → a' = a) →
-      ∃ a' m, s'.live.get? a' = some l ∧ Chain s'.relog a a' ∧ ((∀ ch, op ≠ .defrag ch) → a' = a) ∧
-      s'.mem.get? a' = some m ∧ m.val = l.val ∧ m.len = l.size ∧ l.size ≤ m.cap ∧ m.data = some a' := by
-    intro a' h1 h2 h3
+  have fin : ∀ a', s'.live.get? a' = some l →
+      ∃ m, s'.mem.get? a' = some m ∧ m.val = l.val ∧ m.len = l.size ∧ l.size ≤ m.cap ∧ m.data = some a' := by
+    intro a' h1
     obtain ⟨m, g1, g2, g3, g4, g5⟩ := slice_shape s' inv' a' l h1
-    exact ⟨a', m, h1, h2, h3, g1, g5, g3, g4, g2⟩
+    exact ⟨m, g1, g5, g3, g4, g2⟩
   by_cases hd : ∃ ch, op = .defrag ch
   · obtain ⟨ch, e⟩ := hd
     subst e
-    obtain ⟨a', x, y⟩ := defragAll_moved inv hr a l hl
-    exact fin a' x y (fun h => absurd rfl (h ch))
+    rcases defragAll_exactly_once inv hr a l hl with ⟨x, y⟩ | ⟨n, x1, x2, x3, x4, x5⟩
+    · obtain ⟨m, hm⟩ := fin a x
+      exact ⟨a, m, x, Or.inl ⟨rfl, fun _ _ => y⟩, hm⟩
+    · obtain ⟨m, hm⟩ := fin n x2
+      exact ⟨n, m, x2, Or.inr ⟨⟨ch, rfl⟩, x1, x3, x4, x5⟩, hm⟩
   · have hop : ∀ ch, op ≠ .defrag ch := fun ch e => hd ⟨ch, e⟩
-    exact fin a (others_untouched s s' op inv hr a l hl hop hf hw) (.refl a) (fun _ => rfl)
+    have x := others_untouched s s' op inv hr a l hl hop hf hw
+    obtain ⟨m, hm⟩ := fin a x
+    exact ⟨a, m, x, Or.inl ⟨rfl, fun ch e => absurd e (hop ch)⟩, hm⟩
+
+/-- Every relocate call of a pass was for a live allocation and delivered it: for each logged
+relocate(old,new), `old` was live before the pass with some record, after the pass `new` is live with
+that record and `old` is not live; the `old`s of the log are pairwise different. -/
+theorem relocate_only_live {V : Type} (s s' : State V) (ch : List (Nat × List Nat)) (inv : Inv s)
+    (hr : defragAll s ch = .ok s') :
+    (s'.relog.map Prod.fst).Nodup ∧
+    ∀ o n, (o, n) ∈ s'.relog →
+      ∃ l, s.live.get? o = some l ∧ s'.live.get? o = none ∧ s'.live.get? n = some l := by
+  obtain ⟨B, o⟩ := defragAll_once inv hr
+  exact ⟨o.olds_nodup, o.entry⟩
 
 /-- One iteration of defragClass's slot loop (model `moveNext`) on an evacuating page of class c: the
 invariant (`InvG` = `Inv` without "no page is evacuating") is kept, Allocs and the number of live
@@ -225,7 +244,7 @@ value) is now at `new`, which was not live before; `old` is no longer live; no o
 changed; memory of every allocation that was live is untouched; relocate(old,new) was logged exactly
 once by this iteration.  By `InvG` of the new state (`LiveOk`) the memory at `new` holds the same value
 with Len = size, Cap ≥ size and Data = new slot + header. -/
-theorem relocate_step_partial {V : Type} (s s' : State V) (c pg : Nat) (inv : InvG s) (hc : c < nClasses)
+theorem relocate_step {V : Type} (s s' : State V) (c pg : Nat) (inv : InvG s) (hc : c < nClasses)
     (hcls : ∀ h, s.pages.get? pg = some h → h.evac = true → h.cls = c)
     (hr : moveNext s c pg = .ok s') :
     InvG s' ∧ s'.allocs = s.allocs ∧ s'.live.size = s.live.size ∧
@@ -235,7 +254,7 @@ theorem relocate_step_partial {V : Type} (s s' : State V) (c pg : Nat) (inv : In
         s'.live.get? new = some l ∧ s'.live.get? (.sh pg i) = none ∧
         (∀ b, b ≠ new → b ≠ .sh pg i → s'.live.get? b = s.live.get? b) ∧
         (∀ b, s.isLive b → s'.mem.get? b = s.mem.get? b))) := by
-  obtain ⟨a, b, c1, _, _, f⟩ := moveNext_invG inv hc hcls hr
+  obtain ⟨a, b, c1, _, _, _, f⟩ := moveNext_invG inv hc hcls hr
   exact ⟨a, b, c1, f⟩
 
 end GocoinV.Props.C20
